@@ -3,6 +3,7 @@ package props
 import (
 	"fmt"
 	"reflect"
+	"strings"
 	"testing"
 
 	hessian "github.com/vogo/gohessian"
@@ -169,7 +170,30 @@ func c01Regression() []regCase {
 			bigStr[i] = "x"
 		}
 	}
+	exact := func(n int) []int32 {
+		l := make([]int32, n)
+		for i := range l {
+			l[i] = int32(i + 1)
+		}
+		return l
+	}
+	anyN := func(n int) []interface{} {
+		l := make([]interface{}, n)
+		for i := range l {
+			l[i] = int32(i + 1)
+		}
+		return l
+	}
 	return []regCase{
+		// the library's own thresholds met exactly, each followed by further values
+		{"typed-list-of-exactly-64", &zoo.Slices{I32: exact(64), I64: []int64{1, 2}}},
+		{"typed-lists-of-63-64-65", []interface{}{exact(63), exact(64), exact(65), "tail"}},
+		{"untyped-lists-of-63-64-65", []interface{}{anyN(63), anyN(64), anyN(65), "tail"}},
+		{"strings-of-2048-4096-6144-characters-followed-by-values", []interface{}{strings.Repeat("a", 2048), int32(1), strings.Repeat("é", 4096), "x", strings.Repeat("b", 6144), "tail"}},
+		{"string-fields-of-a-whole-number-of-chunks", &zoo.StrCarrier{S: strings.Repeat("s", 2048), L: []string{strings.Repeat("t", 4096), "after"}, MV: map[string]string{"k": strings.Repeat("u", 2048)}}},
+		{"binaries-of-4096-8192-octets-followed-by-values", []interface{}{make([]byte, 4096), int32(1), make([]byte, 8192), "tail", make([]byte, 31), make([]byte, 1023), make([]byte, 1024)}},
+		{"strings-of-31-32-1023-1024-characters", []interface{}{strings.Repeat("a", 31), strings.Repeat("b", 32), strings.Repeat("c", 1023), strings.Repeat("d", 1024), "tail"}},
+		{"16-and-17-classes-then-instances-of-the-16th-and-17th", append(zoo.ManyClasses(17), reflect.New(zoo.QTypes[15]).Interface(), reflect.New(zoo.QTypes[16]).Interface())},
 		{"300-classes-in-one-message", zoo.ManyClasses(300)},
 		{"17-classes-in-one-message", zoo.ManyClasses(17)},
 		{"multi-chunk-binary-after-3-classes", []interface{}{&zoo.K00{A: 1}, &zoo.K01{A: "x"}, &zoo.K02{A: 2}, make([]byte, 5000), make([]byte, 9000)}},
